@@ -30,6 +30,7 @@ type HexCase struct {
 	Corrupt bool   `json:"corrupt"`        // the text contains one non-hex, non-space character outside comments
 	Bulk    string `json:"bulk,omitempty"` // kind of the long line, if the text has one
 	Odd     bool   `json:"odd,omitempty"`  // the corruption is a dropped hex digit (odd digit count)
+	Uniform bool   `json:"uniform,omitempty"`
 }
 
 func oracleHex(c *HexCase) (f *ev.Failure) {
@@ -173,6 +174,23 @@ func genBulkLine(t *rapid.T, sb *strings.Builder) (data []byte, kind string) {
 }
 
 func genHexCase(t *rapid.T) *HexCase {
+	if rapid.IntRange(0, 9).Draw(t, "uniform") == 0 {
+		// one line, no comment, every separator the same string - incl. the ASCII whitespace characters form feed
+		// and vertical tab, and no separator at all
+		data := rapid.SliceOfN(rapid.Byte(), 0, 12).Draw(t, "udata")
+		sep := rapid.SampledFrom([]string{"", " ", "\t", "\f", "\v", "\f\v", "\r"}).Draw(t, "usep")
+		var sb strings.Builder
+		for i, b := range data {
+			if i > 0 {
+				sb.WriteString(sep)
+			}
+			fmt.Fprintf(&sb, "%02x", b)
+		}
+		if rapid.Bool().Draw(t, "utrail") {
+			sb.WriteString(sep)
+		}
+		return &HexCase{Text: sb.String(), Want: data, Uniform: true}
+	}
 	var sb strings.Builder
 	data := genHexPart(t, &sb)
 	bulk := ""
@@ -614,7 +632,7 @@ func sanitizeStrings(c *DumpCase) {
 	}
 }
 
-const ruleC20 = "(hex) random byte strings rendered with random digit case, spaces/tabs/CR anywhere incl. between the two digits of a byte, line breaks at byte boundaries, ';' comments containing arbitrary text incl. ';' and hex digits, comment-only lines, a final comment without line break, 1 in 10 with one physical line of 1000 .. 200001 bytes (sizes around 4 KiB and 64 KiB; hex digits, a long comment, a whitespace run or a comment-only line) between two ordinary parts; 1 in 4 corrupted with one non-hex non-space character outside comments, 1 in 8 with one hex digit dropped (odd digit count) - both must be rejected; oracle: ParseAnnotatedHex(render(b)) == b. " +
+const ruleC20 = "(hex) random byte strings rendered with random digit case, spaces/tabs/CR anywhere incl. between the two digits of a byte, line breaks at byte boundaries, ';' comments containing arbitrary text incl. ';' and hex digits, comment-only lines, a final comment without line break, 1 in 10 a single line whose separators are all the same string out of {none, space, tab, CR, form feed, vertical tab}, 1 in 10 with one physical line of 1000 .. 200001 bytes (sizes around 4 KiB and 64 KiB; hex digits, a long comment, a whitespace run or a comment-only line) between two ordinary parts; 1 in 4 corrupted with one non-hex non-space character outside comments, 1 in 8 with one hex digit dropped (odd digit count) - both must be rejected; oracle: ParseAnnotatedHex(render(b)) == b. " +
 	"(protodump) generated wire sequences (nesting depth <= 3, all four wire types, numbers up to 2^29-1, 1 in 8 length-delimited payloads 63..4097 bytes long), 1 in 4 mutated, x random disjoint -expand/-strings path sets over present and absent paths; dumpProto (working-tree source compiled into the harness) and the built binary (-file, stdin pipe, stdin file) are read by a tolerant reader into (depth, number, wire type, value) entries == refwire walk recursing into exactly the expand paths; malformed => error, never a panic. " +
 	"non-trivial = hex text with >= 1 comment and >= 1 line break; dump input with >= 1 length-delimited field and >= 1 path; distinct by text / (input, paths)"
 
@@ -636,6 +654,9 @@ func TestC20(t *testing.T) {
 		}
 		if c.Odd {
 			rec.Class("hex/odd-digit-count")
+		}
+		if c.Uniform {
+			rec.Class("hex/one-line-uniform-separator")
 		}
 		if strings.Contains(c.Text, ";") && strings.Contains(c.Text, "\n") {
 			rec.NonTrivial(ev.FP("hex", c.Text))
